@@ -228,6 +228,21 @@ def run(rng, tier, res=None, want=("knnpred", "select")):
                     for a_, v_ in zip(real_np.asarray(a, dtype=float).ravel(), real_np.asarray(v, dtype=float).ravel()):
                         _t.append((float(a_), float(v_)))
                     return v
+                if not pre and rng.random() < 0.3:
+                    # HISTORY: the same classifier object was trained before, on an easy problem (two distant groups: every candidate
+                    # reaches accuracy 1) — C16 speaks of every training run, whatever the object has been through
+                    n0 = 2 * (max_k + 2)
+                    X0 = np.array([[(1.0 if i % 2 == 0 else 100.0) + 0.01 * rng.random() for _ in range(d)] for i in range(n0)])
+                    Y0 = np.array([i % 2 for i in range(n0)], dtype=int) + int(Y.min())
+                    Xv0 = np.array([[(1.0 if i % 2 == 0 else 100.0) + 0.01 * rng.random() for _ in range(d)] for i in range(4)])
+                    Yv0 = np.array([i % 2 for i in range(4)], dtype=int) + int(Y.min())
+                    try:
+                        o.fit(X0, Y0, Xv0, Yv0)
+                        res.hit("knn_fit_on_previously_fitted_object")
+                        meta = dict(meta, earlier_fit={"X": X0.tolist(), "Y": Y0.tolist(), "Xv": Xv0.tolist(), "Yv": Yv0.tolist()})
+                    except Exception:
+                        res.hit("knn_prefit_raised")
+                        o = KS.KNNSupervisedOPF(max_k=max_k, distance=metric)
                 KS.g = Proxy(G, opf_accuracy=acc_wrap)
                 KN.np = Proxy(real_np, exp=exp_wrap2)
                 KS.np = Proxy(real_np, exp=exp_wrap2)
@@ -441,6 +456,24 @@ def run(rng, tier, res=None, want=("knnpred", "select")):
                     viol("C04", f"KNN-supervised training labels {[a.predicted_label for a in nd]} != true labels {Y.tolist()}", meta)
                 res.hit("c04_knn_checked")
         # ---------------- predict (C09, C14) ----------------
+        # ---- C07 / C09, history: the SAME array object handed to predict twice, its contents replaced in place in between ----
+        if not pre and nq >= 1:
+            try:
+                buf = Q.copy()
+                o.predict(buf)
+                Q2 = np.array([X[rng.randrange(n)] for _ in range(nq)]) if rng.random() < 0.5 else Q[::-1].copy()
+                buf[:] = Q2
+                pb = o.predict(buf)
+                pc = o.predict(Q2.copy())
+                cn = (lambda r: ([int(v) for v in r[0]], [int(v) for v in r[1]])) if unsup else (lambda r: [int(v) for v in r])
+                if cn(pb) != cn(pc):
+                    for pp_ in ("C07", "C09"):
+                        viol(pp_, f"{'UnsupervisedOPF' if unsup else 'KNNSupervisedOPF'}.predict on an array whose contents were replaced in place after an "
+                                  f"earlier predict call on the same array object returned {cn(pb)}; the same values in a new array give {cn(pc)}: "
+                                  f"the result depends on the call history, not on the argument values", dict(meta, Q_first=Q.tolist(), Q_second=Q2.tolist()))
+                res.hit("predict_same_buffer_new_contents")
+            except Exception as ex:
+                res.hit("predict_same_buffer_raised")
         if "knnpred" in want:
             if rng.random() < 0.3:
                 # the public maxima filter between fit and predict: costs become max(density - h, 0); predict keeps using COSTS
